@@ -92,6 +92,7 @@ type sess struct {
 	ownerPub crypto.PublicKey
 
 	has65      bool        // 64/65 completed: kx holds the tunnel keys
+	rekeyed    bool        // the owner accepted a SECOND ProveDevice (ASYMKEX): it now holds keys derived from its own cleared parameter, nobody else has them
 	kx         kex.Session //
 	repl       fdo.VoucherHeader
 	mtu        uint16 // from 67
@@ -260,7 +261,16 @@ func (d *Driver) Do(s Step) (res Result) {
 			res.OK = false
 		}
 	}
+	// a second ProveDevice in a session whose key exchange is complete: ECDH and DH sessions take no second parameter
+	// ("already completed"), the ASYMKEX session simply re-keys
+	if s.Msg == 64 && tc != nil && tc.has65 && d.cfg.Kex != kex.ASYMKEX2048Suite && d.cfg.Kex != kex.ASYMKEX3072Suite {
+		res.OK = false
+	}
 	res.Enc = tunnelled(s.Msg) && enc && own
+	if tc != nil && tc.rekeyed && tunnelled(s.Msg) {
+		res.Enc, res.OK = false, false
+	}
+	second64 := s.Msg == 64 && tc != nil && tc.has65
 	res.Hmac = s.Msg == 66 && b.hmac && !mangles(s.Fault)
 	if tunnelled(s.Msg) && !enc {
 		res.OK = false
@@ -305,6 +315,9 @@ func (d *Driver) Do(s Step) (res Result) {
 	}
 	if own && b.onResp != nil && res.Panic == "" {
 		b.onResp(res.RespType, rb)
+	}
+	if second64 && res.RespType == 65 {
+		tc.rekeyed = true
 	}
 	return res
 }
